@@ -582,9 +582,22 @@ impl HttpContext {
                 .map(ToOwned::to_owned);
         }
 
-        // if self.method == Some(Method::Get) && request.body_size == kawa::BodySize::Empty {
-        //     request.parsing_phase = kawa::ParsingPhase::Terminated;
-        // }
+        // (HTTP/2 requests are framed by the H2 layer, see pkawa.)
+        let from_h1 = matches!(
+            request.detached.status_line,
+            kawa::StatusLine::Request {
+                version: kawa::Version::V10 | kawa::Version::V11,
+                ..
+            }
+        );
+
+        // RFC 9112 §6.3: a request with neither Content-Length nor
+        // Transfer-Encoding has no body. Whatever follows its header section is
+        // the next (pipelined) request and must be parsed as such, not relayed
+        // to the backend as a body of unknown length.
+        if from_h1 && request.body_size == kawa::BodySize::Empty {
+            request.parsing_phase = kawa::ParsingPhase::Terminated;
+        }
 
         let public_ip = self.public_address.ip();
         let public_port = self.public_address.port();
